@@ -14,6 +14,10 @@ def xml_families():
         "attvalue": lambda n: "<a x='" + "y&lt;" * n + "'/>",
         "cm-choice": lambda n: "<!DOCTYPE a [<!ELEMENT a " + "(" * n + "b" + "|c)" * n + ">]><a/>",
         "cm-seq": lambda n: "<!DOCTYPE a [<!ELEMENT a " + "(" * n + "b" + ",c)" * n + ">]><a/>",
+        # groups that each stand BEHIND a name: (b,(b,(b,...))) and a choice of the same shape (round-8 seed C03-K: a name first
+        # tried as a group wiped the count of the groups open around it)
+        "cm-right": lambda n: "<!DOCTYPE a [<!ELEMENT a " + "(b," * n + "c" + ")" * n + ">]><a/>",
+        "cm-rightchoice": lambda n: "<!DOCTYPE a [<!ELEMENT a " + "(b|" * n + "c" + ")*" * n + ">]><a/>",
         "cm-mixed": lambda n: "<!DOCTYPE a [<!ELEMENT a " + "(" * n + "b" + "|c)*" * n + ">]><a/>",
         "entchain": lambda n: "<!DOCTYPE a [" + "".join('<!ENTITY e%d "&e%d;">' % (i + 1, i) for i in range(n)) +
                               '<!ENTITY e0 "v">]><a x="&e%d;">&e%d;</a>' % (n, n),
